@@ -9,7 +9,7 @@
    hypotheses are satisfiable ([aead_hyps_satisfiable]). *)
 From Coq Require Import List NArith Arith Bool Lia.
 From AHK Require Import Lib.Res Lib.ByteStr Model.Frame
-  Proofs.FrameBase Proofs.FrameFeed Proofs.FrameSend.
+  Proofs.FrameBase Proofs.FrameFeed Proofs.FrameSend Proofs.FrameSound.
 Import ListNotations.
 
 Lemma F1024 : 0 < CHUNK. Proof. unfold CHUNK; lia. Qed.
@@ -127,6 +127,25 @@ Theorem feed_auth_fail_dead : forall A key, aead_ok A 16 -> forall ps ctr hdr ct
     ip_feed_all (open A key) (Live [] ctr) segs = (Dead, ps).
 Proof. exact (FrameFeed.feed_auth_fail TAGLEN). Qed.
 
+(* soundness on ARBITRARY input (nothing assumed about who produced the bytes, nor
+   about the cipher): whatever one read delivers, from any state, the consumed bytes
+   split into complete frames each of which the decrypt function opened, with the
+   nonce of its position, to exactly the delivered plaintexts - so a frame that does
+   not authenticate is never delivered, and nothing is delivered out of order *)
+Theorem feed_delivers_only_authentic : forall opn buf ctr d s' o,
+    ip_feed opn (Live buf ctr) d = (s', o) ->
+    exists frs rem,
+      buf ++ d = flat frs ++ rem /\ authentic 16 opn ctr frs o /\
+      (s' = Live rem (ctr + N.of_nat (length o))%N \/ s' = Dead).
+Proof. exact (feed_sound TAGLEN). Qed.
+
+Theorem session_delivers_only_authentic : forall opn ctr segs s' o,
+    ip_feed_all opn (Live [] ctr) segs = (s', o) ->
+    exists frs rem,
+      concat segs = flat frs ++ rem /\ authentic 16 opn ctr frs o /\
+      (s' = Live rem (ctr + N.of_nat (length o))%N \/ s' = Dead).
+Proof. exact (feed_all_sound TAGLEN). Qed.
+
 (* Dead delivers nothing, ever after *)
 Theorem dead_delivers_nothing : forall opn segs, ip_feed_all opn Dead segs = (Dead, []).
 Proof. exact (dead_forever TAGLEN). Qed.
@@ -194,6 +213,8 @@ Print Assumptions feed_rests.
 Print Assumptions feed_correct.
 Print Assumptions feed_correct_partial.
 Print Assumptions feed_auth_fail_dead.
+Print Assumptions feed_delivers_only_authentic.
+Print Assumptions session_delivers_only_authentic.
 Print Assumptions dead_delivers_nothing.
 Print Assumptions send_feed_mirror.
 Print Assumptions nonce_layout.
